@@ -6,8 +6,78 @@ template <class FO>
 void VM<FO>::do_log_typed(int, int, Op const&)
 {
 }
+// Real LOG_* macros (C16): the level check and the argument evaluation are the library's own.
+// The first argument carries a side effect, so the history shows whether arguments were evaluated.
 template <class FO>
-void VM<FO>::do_log_macro(int, int, Op const&)
+void VM<FO>::do_log_macro(int tid, int opi, Op const& op)
 {
+  Slot* s = slot_of(op.v[0]);
+  if (!s || !s->valid)
+  {
+    return;
+  }
+  Lg* lg = s->lg;
+  int64_t const id = static_cast<int64_t>(tid) * 1000000 + opi;
+  int const level = static_cast<int>(op.v[2] < 0 ? 0 : (op.v[2] > 8 ? 8 : op.v[2]));
+  bool const dynamic = op.v[1] == 1;
+  bool const named = op.v[1] == 2;
+  std::string pl = payload(static_cast<uint64_t>(op.v[3]), static_cast<size_t>(op.v[4]));
+  bool evaluated = false;
+  auto ev = [&](int64_t x) -> int64_t
+  {
+    evaluated = true;
+    this->record(EV_ARG_EVAL, id);
+    return x;
+  };
+  Ev& inv = record(EV_LOG_INVOKE, id, op.v[0], level, dynamic ? 5 : 4);
+  inv.s = fmtquill::format("#{}# mac {}", id, pl);
+  inv.s2 = std::string(named ? "3" : "0") + ",0";
+  if (named)
+  {
+    inv.s2 = "30,0"; // macro site with named arguments (mid, mtext)
+  }
+  if (dynamic)
+  {
+    QUILL_LOG_DYNAMIC(lg, static_cast<quill::LogLevel>(level), "#{}# mac {}", ev(id), pl);
+  }
+  else if (named)
+  {
+    switch (level)
+    {
+    case 0: QUILL_LOG_TRACE_L3(lg, "#{mid}# mac {mtext}", ev(id), pl); break;
+    case 1: QUILL_LOG_TRACE_L2(lg, "#{mid}# mac {mtext}", ev(id), pl); break;
+    case 2: QUILL_LOG_TRACE_L1(lg, "#{mid}# mac {mtext}", ev(id), pl); break;
+    case 3: QUILL_LOG_DEBUG(lg, "#{mid}# mac {mtext}", ev(id), pl); break;
+    case 4: QUILL_LOG_INFO(lg, "#{mid}# mac {mtext}", ev(id), pl); break;
+    case 5: QUILL_LOG_NOTICE(lg, "#{mid}# mac {mtext}", ev(id), pl); break;
+    case 6: QUILL_LOG_WARNING(lg, "#{mid}# mac {mtext}", ev(id), pl); break;
+    case 7: QUILL_LOG_ERROR(lg, "#{mid}# mac {mtext}", ev(id), pl); break;
+    default: QUILL_LOG_CRITICAL(lg, "#{mid}# mac {mtext}", ev(id), pl); break;
+    }
+  }
+  else
+  {
+    switch (level)
+    {
+    case 0: QUILL_LOG_TRACE_L3(lg, "#{}# mac {}", ev(id), pl); break;
+    case 1: QUILL_LOG_TRACE_L2(lg, "#{}# mac {}", ev(id), pl); break;
+    case 2: QUILL_LOG_TRACE_L1(lg, "#{}# mac {}", ev(id), pl); break;
+    case 3: QUILL_LOG_DEBUG(lg, "#{}# mac {}", ev(id), pl); break;
+    case 4: QUILL_LOG_INFO(lg, "#{}# mac {}", ev(id), pl); break;
+    case 5: QUILL_LOG_NOTICE(lg, "#{}# mac {}", ev(id), pl); break;
+    case 6: QUILL_LOG_WARNING(lg, "#{}# mac {}", ev(id), pl); break;
+    case 7: QUILL_LOG_ERROR(lg, "#{}# mac {}", ev(id), pl); break;
+    default: QUILL_LOG_CRITICAL(lg, "#{}# mac {}", ev(id), pl); break;
+    }
+  }
+  for (auto& c : pl)
+  {
+    c = '?';
+  }
+  if (evaluated)
+  {
+    note_thread_logged(tid);
+  }
+  record(EV_LOG_RETURN, id, evaluated ? 1 : -1, 0);
 }
 } // namespace vs
